@@ -93,12 +93,22 @@ fn cmd_lexlines(args: &[&str]) -> String {
                 for t in &toks {
                     out.push(' ');
                     out.push_str(&fmt_tok(t));
+                    // every token of line i+1 is located on line i+1 (the rules give no other line); a deviation is made visible
+                    if t.loc().line() != i + 1 {
+                        out.push_str(&format!("!line={}", t.loc().line()));
+                    }
                 }
                 out.push_str(&format!(" end={}", lex.loc().col()));
+                if lex.loc().line() != i + 1 {
+                    out.push_str(&format!("!line={}", lex.loc().line()));
+                }
                 out.push_str(" | ");
             }
             Err(_) => {
                 out.push_str(&format!("err {}", lex.loc().col()));
+                if lex.loc().line() != i + 1 {
+                    out.push_str(&format!("!line={}", lex.loc().line()));
+                }
                 return out;
             }
         }
